@@ -10,7 +10,7 @@
    What is NOT proved here (checked on the implementation by the correspondence and the oracle only): restoration of
    the FILE SYSTEM by the undo log for additive programs (`block_files_atomic`), beyond the witnesses below. *)
 From Coq Require Import NArith List Bool.
-From V Require Import Model.Txn Model.TxnCheck Proofs.TxnProofs Proofs.TxnProofs2.
+From V Require Import Model.Txn Model.TxnCheck Proofs.TxnProofs.
 Import ListNotations.
 Open Scope N_scope.
 
@@ -51,14 +51,6 @@ Theorem ingest_atomic_registry : forall m d s s' h,
   exec_op shipped (Ingest m d) s = (s', Raised h) -> (cfault s' = false \/ sql s = []) -> cur s' = cur s.
 Proof. exact ingest_registry_atomic_p. Qed.
 Print Assumptions ingest_atomic_registry.
-
-(* --- additive_op_atomic, file side, PARTIAL (put only, top level, no artifact at the target path before, fault not
-   at the COMMIT boundary): for every start state and every fault position / flavour a put that raises leaves the
-   root's files exactly as they were.  (Ingest and whole blocks: not proved in Coq, see the header.) *)
-Theorem put_atomic_files_partial : forall d v s s' h, ptr s = [] -> sql s = [] -> fget d (fs s) = None ->
-  exec_op shipped (Put d v) s = (s', Raised h) -> cfault s' = false -> fs s' = fs s.
-Proof. exact put_files_atomic_p. Qed.
-Print Assumptions put_atomic_files_partial.
 
 (* --- every action of the model keeps the frame discipline (the lemma the others rest on), for every operation *)
 Theorem op_frames : forall o s s' r, exec_op shipped o s = (s', r) ->
